@@ -38,7 +38,8 @@ type FuncSpec struct {
 	File      string
 	Line      int
 	Used      bool
-	Opaque    bool
+	Opaque   bool
+	InsertOnly map[string][]string // local map variable -> tags: stores never overwrite a present key
 	Unclaimed map[string]string // obligation-name suffix -> reason
 	Lets      []*LetSpec
 }
@@ -143,7 +144,7 @@ func NewSpecDB() *SpecDB {
 }
 
 var clauseKW = map[string]bool{"requires": true, "ensures": true, "ghostensures": true, "modifies": true, "decreases": true, "loop": true,
-	"inline": true, "trusted": true, "pure": true, "tag": true, "noframe": true, "opaque": true, "unclaimed": true, "let": true, "oncallback": true}
+	"inline": true, "trusted": true, "pure": true, "tag": true, "noframe": true, "opaque": true, "unclaimed": true, "let": true, "oncallback": true, "insertonly": true}
 var topKW = map[string]bool{"func": true, "functype": true, "extern": true, "pred": true, "table": true, "specfn": true,
 	"axiom": true, "lemma": true, "ghostfield": true, "iface": true, "const": true, "ghostvar": true, "globalinv": true, "guardedby": true, "readers": true, "writers": true, "globalwriters": true, "mapranges": true, "equiv": true}
 
@@ -339,6 +340,15 @@ func (db *SpecDB) LoadFile(path string, pkg string) error {
 				cur.Clauses = append(cur.Clauses, c)
 			default:
 				return fail("oncallback requires|keeps")
+			}
+		case "insertonly":
+			// insertonly [Cnn] m : every store into the local map m writes a key that is not present yet
+			tags, names := splitTags(rest)
+			for _, n := range strings.Fields(strings.ReplaceAll(names, ",", " ")) {
+				if cur.InsertOnly == nil {
+					cur.InsertOnly = map[string][]string{}
+				}
+				cur.InsertOnly[n] = tags
 			}
 		case "inline":
 			cur.Inline = true
